@@ -83,10 +83,13 @@ class LocalLockWorld(World):
             ENV.hooks.remove(self.adapter)
 
     def reset(self) -> None:
+        from datashard.file_lock import FileLock
+
         self.adapter.reset()
         ENV.clock = T0 + 100.0
         self.cs = CS()
         self.truth = []
+        self.shared_lock = FileLock(self.lock_path, timeout=self.cfg.get("timeout", 30.0))
 
     def digest(self) -> Any:
         return (self.adapter.digest(), self.cs.inside)
@@ -106,7 +109,11 @@ class LocalLockWorld(World):
 
         def body():
             s = ENV.sched
-            lk = FileLock(path, timeout=self.cfg.get("timeout", 30.0))
+            if w.cfg.get("shared_object"):
+                # both contenders are threads that were handed the SAME lock object
+                lk = w.shared_lock
+            else:
+                lk = FileLock(path, timeout=self.cfg.get("timeout", 30.0))
             got = 0
             if mode == "hold_forever":
                 lk.acquire()
@@ -207,16 +214,16 @@ class S3LockWorld(World):
             r = w._orig_is_held(self_)
             if r:
                 o = w.fake.objs.get(self_.key)
-                if o is None or o.body.decode().split(":", 1)[0] != self_.lock_id:
+                if o is None or w.lock_writer != root_actor(ENV.actor()):
                     w.truth.append(f"{ENV.actor()}: is_held() returned True but the lock object "
-                                   f"{'is absent' if o is None else 'carries another id'}")
+                                   f"{'is absent' if o is None else 'was last written by ' + str(w.lock_writer)}")
             return r
 
         def _try(self_):
             r = w._orig_try(self_)
             if r:
                 o = w.fake.objs.get(self_.key)
-                if o is None or o.body.decode().split(":", 1)[0] != self_.lock_id:
+                if o is None or w.lock_writer != root_actor(ENV.actor()):
                     w.truth.append(f"{ENV.actor()}: acquire succeeded but the lock object is not the caller's")
             return r
 
@@ -235,10 +242,14 @@ class S3LockWorld(World):
             self._prev[req.idx] = self.fake.objs.get(req.key)
 
     def _after(self, req: Any, res: Any) -> None:
+        if req.key == self.KEY and req.op == "DELETE" and not isinstance(res, BaseException):
+            self.lock_writer = None
         if req.op == "PUT" and req.key == self.KEY and not isinstance(res, BaseException):
             prev = self._prev.get(req.idx)
             new = self.fake.objs[req.key]
-            if prev is not None and prev.body.split(b":", 1)[0] != new.body.split(b":", 1)[0]:
+            prev_writer, self.lock_writer = self.lock_writer, root_actor(req.actor)
+            # ownership is tracked by WHO wrote the object (the identifiers inside it are the library's business)
+            if prev is not None and prev_writer != self.lock_writer:
                 age = (ENV.clock + self.fake.clock_skew) - prev.lm  # on the server's clock, which stamped LastModified
                 if age <= LEASE:
                     self.server.append(f"{req.actor} took the lock over from a holder whose lease had not lapsed (age {age:.3f}s)")
@@ -254,6 +265,7 @@ class S3LockWorld(World):
         ENV.clock = T0 + 100.0
         self.cs = CS()
         self.truth, self.server, self._prev = [], [], {}
+        self.lock_writer = None
         self.locks = [S3LockProvider(self.fake, "bkt", self.KEY, timeout=self.cfg.get("timeout", 30.0))
                       for _ in self.cfg["modes"]]
 
@@ -470,6 +482,9 @@ def configs(tier: str, seed: int) -> List[Dict[str, Any]]:
         add("local", f"nb/{f}", file=f, modes=["blocking", "nonblocking"], rounds=2)
     add("local", "timeout", file="present", modes=["hold_forever", "blocking"], rounds=1, timeout=0.05, expect_timeout=True)
     add("local", "3x1", file="present", modes=["blocking"] * 3, rounds=1)
+    # two threads that share one lock object: while the first holds it the second must wait / time out
+    add("local", "timeout/shared_object", file="present", modes=["hold_forever", "blocking"], rounds=1, timeout=0.05,
+        expect_timeout=True, shared_object=True)
     add("s3", "2x1", modes=["blocking", "blocking"], rounds=1, sample=True)
     add("s3", "2x2", modes=["blocking", "blocking"], rounds=2, bound=None if tier != "quick" else 3)
     add("s3", "timeout", modes=["hold_forever", "blocking"], rounds=1, timeout=30.0, expect_timeout=True, horizon=20000)
